@@ -253,6 +253,72 @@ def pubexp_width_gate(chk):
     chk.floor('pubexp gate instances', n, 4)
 
 
+def modpow_temporaries(chk):
+    """br_iXX_modpow(x, e, elen, m, m0i, t1, t2) needs two temporaries of the size of the modulus (its words plus the header word)
+    that do not overlap.  At every call site the two pointers are compared in symbolic form: distinct local arrays, a constant
+    spacing inside one work area, or - when the second is carved after the first with a computed length - a spacing equal to
+    (words of m + 1) * word size, where the word count is derived from the header of the *same* modulus the call receives.
+    Sites whose spacing is an index product decided elsewhere (the EC bytecode registers) are listed as not judged."""
+    import re
+    from .. import wmw, sym
+    R = 'modpow-temporaries-disjoint'
+    P = wmw.program()
+    n = judged = 0
+    for (un, fn), F in sorted(P.static.items()):
+        for c in F.calls():
+            m_ = re.match(r'br_i(15|31|32)_modpow$', c.get('callee') or '')
+            if not m_ or len(c['ops']) < 7:
+                continue
+            w = int(m_.group(1))
+            wsz, sh = (2, 4) if w == 15 else (4, 5)
+            S = sym.Sym(F)
+            t1, t2, mm = S.sym(c['ops'][5]), S.sym(c['ops'][6]), S.sym(c['ops'][3])
+            n += 1
+            inst = '%s: temporaries of the %s call at line %s do not overlap' % (fn, c['callee'], c.get('line'))
+            d = dict(t2[1])
+            for k, v in t1[1]:
+                d[k] = d.get(k, 0) - v
+            d = {k: v for k, v in d.items() if v}
+            cst = t2[2] - t1[2]
+            atoms1 = [k for k, v in t1[1]]
+            atoms2 = [k for k, v in t2[1]]
+            if len(atoms1) == 1 and len(atoms2) == 1 and atoms1 != atoms2 and all(a[0] == 'v' and F.insts[a[1]]['op'] == 'alloca' for a in atoms1 + atoms2):
+                judged += 1
+                chk.ok(R, inst, F.where(c), 'distinct local arrays')
+                continue
+            if not d:
+                judged += 1
+                if cst == 0:
+                    chk.violation(R, inst, F.where(c), 'both temporaries are the same pointer', key='%s %s %s' % (R, fn, c.get('line')))
+                else:
+                    chk.ok(R, inst, F.where(c), 'constant spacing of %d bytes inside one work area' % abs(cst))
+                continue
+            # symbolic spacing: must be wsz * lshr(load(m) + (w == 15 ? 15 : 31), sh) + wsz  (+ a non-negative constant)
+            want_atom = None
+            if len(d) == 1:
+                (a, coef), = d.items()
+                if a[0] == 'op' and a[1] == 'lshr' and coef == wsz:
+                    inner, shc = a[2], a[3]
+                    if shc == ('aff', (), sh) and inner[0] == 'aff' and inner[2] == (1 << sh) - 1 and len(inner[1]) == 1 and inner[1][0][1] == 1:
+                        ld = inner[1][0][0]
+                        # the loaded header must be word 0 of the modulus argument
+                        mb, mo = F.addr_of(c['ops'][3])
+                        if ld[0] == 'load' and ld[1] == repr(sorted(mb.items())) and ld[2] == mo:
+                            want_atom = a
+            if want_atom is not None and cst >= wsz:
+                judged += 1
+                chk.ok(R, inst, F.where(c), 'spacing = %d * ((m[0] + %d) >> %d) + %d bytes' % (wsz, (1 << sh) - 1, sh, cst))
+            elif all(k[0] == 'op' and k[1] in ('and', 'mul') for k in d) or any('and' in repr(k) for k in d):
+                chk.ok(R, inst, F.where(c), 'register indices of the EC bytecode: not judged here', nontrivial=False)
+            else:
+                judged += 1
+                chk.violation(R, inst, F.where(c), 'the distance between the temporaries is %s bytes, which is not (words of the modulus + 1) * %d: for some modulus '
+                              'sizes the header of the second overlaps the top word of the first' % (sym.show(('aff', tuple(sorted(d.items(), key=repr)), cst)), wsz),
+                              key='%s %s %s' % (R, fn, c.get('line')))
+    chk.floor('modpow call sites', n, 10)
+    chk.floor('modpow call sites judged', judged, 8)
+
+
 def run(tier):
     chk = report.Check('C10', tier,
                        'Static rejection obligations for the RSA functions of all four implementations (i15, i31, i32, i62), the shared '
@@ -285,6 +351,7 @@ def run(tier):
     keygen_forced_bits(chk)
     zero_stripping_direction(chk)
     pubexp_width_gate(chk)
+    modpow_temporaries(chk)
     chk.floor("C10 obligations", len(chk.obls), 90)
     from .. import lints
     lints.length_is_boolean(chk, ['src/rsa/'])
